@@ -209,6 +209,36 @@ def builder_pipeline(prop, tier, conf, purpose=None):
                 other=other, nbuilds=nbuilds, samples=sample, twall=tres["wall"], args=args)
 
 
+def apalache_builder_induction():
+    """Unbounded call histories at model level: the inductive invariant of spec/apalache/BuilderInd.tla
+    discharged with Apalache (base, step, implication of DupIff/DupSticky/ExpDefault) plus two
+    non-vacuity obligations that must be reported violated."""
+    import subprocess
+    d = os.path.join(verif.SPEC, "apalache")
+    jobs = [("base", ["--init=Init", "--inv=IndInv", "--length=0"], True),
+            ("step", ["--init=IndInit", "--inv=IndInv", "--length=1"], True),
+            ("implies-properties", ["--init=IndInit", "--inv=Props", "--length=0"], True),
+            ("indinit-satisfiable", ["--init=IndInit", "--inv=NoState", "--length=0"], False),
+            ("step-enabled", ["--init=IndInit", "--inv=NoBuildStep", "--length=1"], False)]
+    done = []
+    for name, args, expect_ok in jobs:
+        outdir = os.path.join(verif.WORK, "apalache-out")
+        try:
+            p = subprocess.run(["apalache-mc", "check", "--cinit=ConstInit", "--out-dir=" + outdir] + args + ["BuilderInd.tla"],
+                               cwd=d, stdout=subprocess.PIPE, stderr=subprocess.STDOUT, text=True, timeout=900)
+        except subprocess.TimeoutExpired:
+            return dict(completed=False, reason="apalache timed out on " + name, obligations=done)
+        noerr = "The outcome is: NoError" in p.stdout
+        err = "The outcome is: Error" in p.stdout
+        if not (noerr or err):
+            return dict(completed=False, reason="apalache gave no verdict on %s: %s" % (name, p.stdout[-400:]), obligations=done)
+        if noerr != expect_ok:
+            raise ToolError("Apalache obligation %s: expected %s, got %s" % (name, "NoError" if expect_ok else "Error", "NoError" if noerr else "Error"))
+        done.append(name)
+    subprocess.run(["rm", "-rf", os.path.join(verif.WORK, "apalache-out")])
+    return dict(completed=True, obligations=done)
+
+
 def check_builder_family(prop, tier):
     """C10, C13, C14, C17: builder state machines (spec/Builder.tla).
     MC_Builder: exhaustive call histories, properties as invariants, histories printed;
@@ -238,6 +268,9 @@ def check_builder_family(prop, tier):
         "trace_validation_wall_s": round(r["twall"], 1),
         "exhaustive": False,
     }
+    if thorough and prop in ("C13", "C17"):
+        # model level, unbounded histories: inductive invariant discharged with Apalache
+        coverage["unbounded_model_induction"] = apalache_builder_induction()
     verif.write_evidence(prop, tier, coverage, BUILDER_ASSUMPTIONS + CORE_ASSUMPTIONS[:1], time.time() - t0, len(r["violations"]))
     return 1 if fresh > 0 else 0
 
